@@ -1077,71 +1077,90 @@ obligations even when no sampled input or schedule shows a difference; the check
 a failing input. -/
 theorem c13_shape_NewTree :
     Shapes.tree_NewTree =
-   ["sha256.New", "Public.MarshalTo", "tn.IsLeaf", "h.Write", "root.Visit", "ID.String", "h.Sum",
-     "hex.EncodeToString", "uuid.NewSHA1", "TreeID", "t.computeSubtreeAggregate"] := rfl
+   ["sha256.New", "assign:h:=sha256.New()", "Public.MarshalTo",
+     "assign:_,err:=tn.ServerIdentity.Public.MarshalTo(h)", "if:(err!=nil)", "if:tn.IsLeaf()",
+     "h.Write", "assign:_,err=h.Write(conv{1})", "if:(err!=nil)", "root.Visit", "ID.String",
+     "h.Sum", "hex.EncodeToString",
+     "assign:url:=(((network.NamespaceURL+\"\")+roster.ID.String())+hex.EncodeToString(h.Sum(nil)))",
+     "uuid.NewSHA1", "TreeID",
+     "assign:t:=&Tree{Roster:roster,Root:root,ID:TreeID(uuid.NewSHA1(uuid.NameSpaceURL,conv(url)))}",
+     "t.computeSubtreeAggregate", "return:t"] := rfl
 
 theorem c13_shape_NewTreeNode :
     Shapes.tree_NewTreeNode =
-   ["Public.String", "uuid.NewSHA1", "TreeNodeID"] := rfl
-
-theorem c13_shape_NewRoster :
-    Shapes.tree_NewRoster =
-   ["if:((len(ids)<1)||(ids[].Public==nil))", "return:nil", "sha256.New", "Public.MarshalTo",
-     "if:(err!=nil)", "Public.MarshalTo", "if:(err!=nil)", "h.Sum", "hex.EncodeToString",
-     "uuid.NewSHA1", "RosterID", "if:(len(ids)!=0)", "if:(e.Public==nil)", "if:(agg==nil)",
-     "Public.Clone", "else", "agg.Add", "return:r"] := rfl
+   ["Public.String", "uuid.NewSHA1", "TreeNodeID",
+     "assign:tn:=&TreeNode{ServerIdentity:ni,RosterIndex:entityIdx,Parent:nil,Children:make(conv,0),ID:TreeNodeID(uuid.NewSHA1(uuid.NameSpaceURL,conv(ni.Public.String())))}",
+     "return:tn"] := rfl
 
 theorem c13_shape_Token_ID :
     Shapes.messages_Token_ID =
    ["RosterID.String", "RoundID.String", "ServiceID.String", "ProtoID.String", "TreeID.String",
-     "TreeNodeID.String", "uuid.NewSHA1", "TokenID"] := rfl
+     "TreeNodeID.String",
+     "assign:url:=(((((((network.NamespaceURL+\"\")+t.RosterID.String())+t.RoundID.String())+t.ServiceID.String())+t.ProtoID.String())+t.TreeID.String())+t.TreeNodeID.String())",
+     "return:TokenID(uuid.NewSHA1(uuid.NameSpaceURL,conv(url)))"] := rfl
 
 theorem c13_shape_Token_Clone :
     Shapes.messages_Token_Clone =
-   [] := rfl
+   ["assign:t2:=*t", "return:&t2"] := rfl
 
 theorem c13_shape_Token_ChangeTreeNodeID :
     Shapes.messages_Token_ChangeTreeNodeID =
-   [] := rfl
+   ["assign:tOther:=*t", "assign:tOther.TreeNodeID=newid", "return:&tOther"] := rfl
 
 theorem c13_shape_Roster_GetID :
     Shapes.tree_Roster_GetID =
-   ["sha256.New", "Public.MarshalTo", "Public.MarshalTo", "h.Sum", "hex.EncodeToString",
-     "uuid.NewSHA1", "RosterID"] := rfl
+   ["sha256.New", "assign:h:=sha256.New()", "range:_,id:=ro.List{", "Public.MarshalTo",
+     "assign:_,err:=id.Public.MarshalTo(h)", "if:(err!=nil)",
+     "return:RosterID{},xerrors.Errorf(\"\",err)", "range:_,srvid:=id.ServiceIdentities{",
+     "Public.MarshalTo", "assign:_,err=srvid.Public.MarshalTo(h)", "if:(err!=nil)",
+     "return:RosterID{},xerrors.Errorf(\"\",err)", "}", "}",
+     "return:RosterID(uuid.NewSHA1(uuid.NameSpaceURL,conv(hex.EncodeToString(h.Sum(nil))))),nil"] := rfl
 
 theorem c13_shape_Roster_Concat :
     Shapes.tree_Roster_Concat =
-   ["NewRoster", "tmpRoster.Search", "if:(i<0)", "return:NewRoster(tmpRoster.List)"] := rfl
+   ["NewRoster", "assign:tmpRoster:=NewRoster(ro.List)", "range:_,si:=sis{", "tmpRoster.Search",
+     "assign:i,_:=tmpRoster.Search(si.ID)", "if:(i<0)",
+     "assign:tmpRoster.List=append(tmpRoster.List,si)", "}", "return:NewRoster(tmpRoster.List)"] := rfl
 
 theorem c13_shape_Roster_NewRosterWithRoot :
     Shapes.tree_Roster_NewRosterWithRoot =
-   ["copy", "ro.Search", "if:(rootIndex<0)", "return:nil", "return:NewRoster(list)"] := rfl
+   ["assign:list:=make(conv,len(ro.List))", "copy", "ro.Search",
+     "assign:rootIndex,_:=ro.Search(root.ID)", "if:(rootIndex<0)", "return:nil",
+     "assign:list[0],list[rootIndex]=list[rootIndex],list[0]", "return:NewRoster(list)"] := rfl
 
 theorem c13_shape_Roster_RandomSubset :
     Shapes.tree_Roster_RandomSubset =
-   ["if:(n>len(ro.List))", "securePermute", "if:!ro.List[].ID.Equal(root.ID)",
-     "if:(len(out)==(n+1))", "return:NewRoster(out)"] := rfl
-
+   ["if:(n>len(ro.List))", "assign:n=len(ro.List)", "assign:out:=make(conv,1,(n+1))",
+     "assign:out[0]=root", "securePermute", "assign:perm:=securePermute(len(ro.List))",
+     "range:_,p:=perm{", "if:!ro.List[].ID.Equal(root.ID)", "assign:out=append(out,ro.List[p])",
+     "if:(len(out)==(n+1))", "break", "}", "return:NewRoster(out)"] := rfl
 
 theorem c13_shape_serviceFactory_Register :
     Shapes.service_serviceFactory_Register =
    ["if:!s.ServiceID().Equal(NilServiceID)", "return:NilServiceID,xerrors.Errorf(\"\",name)",
-     "uuid.NewSHA1", "ServiceID", "mutex.Lock", "defer:mutex.Unlock", "return:id,nil"] := rfl
+     "uuid.NewSHA1", "ServiceID",
+     "assign:id:=ServiceID(uuid.NewSHA1(uuid.NameSpaceURL,conv(name)))", "mutex.Lock",
+     "defer:mutex.Unlock",
+     "assign:s.constructors=append(s.constructors,serviceEntry{constructor:fn,serviceID:id,name:name,suite:suite})",
+     "return:id,nil"] := rfl
 
 theorem c13_shape_serviceFactory_Unregister :
     Shapes.service_serviceFactory_Unregister =
-   ["mutex.Lock", "defer:mutex.Unlock", "if:(c.name==name)", "if:(index<0)",
-     "return:xerrors.New((\"\"+name))", "return:nil"] := rfl
+   ["mutex.Lock", "defer:mutex.Unlock", "assign:index:=-1", "range:i,c:=s.constructors{",
+     "if:(c.name==name)", "assign:index=i", "break", "}", "if:(index<0)",
+     "return:xerrors.New((\"\"+name))",
+     "assign:s.constructors=append(s.constructors[:index],s.constructors[(index+1):])",
+     "return:nil"] := rfl
 
 theorem c13_shape_serviceFactory_ServiceID :
     Shapes.service_serviceFactory_ServiceID =
-   ["mutex.RLock", "defer:mutex.RUnlock", "if:(name==c.name)", "return:c.serviceID",
-     "return:NilServiceID"] := rfl
+   ["mutex.RLock", "defer:mutex.RUnlock", "range:_,c:=s.constructors{", "if:(name==c.name)",
+     "return:c.serviceID", "}", "return:NilServiceID"] := rfl
 
 theorem c13_shape_serviceFactory_Name :
     Shapes.service_serviceFactory_Name =
-   ["mutex.RLock", "defer:mutex.RUnlock", "if:id.Equal(c.serviceID)", "return:c.name",
-     "return:\"\""] := rfl
+   ["mutex.RLock", "defer:mutex.RUnlock", "range:_,c:=s.constructors{",
+     "if:id.Equal(c.serviceID)", "return:c.name", "}", "return:\"\""] := rfl
 
 theorem c13_shape_RegisterNewService :
     Shapes.service_RegisterNewService =
@@ -1153,32 +1172,28 @@ theorem c13_shape_RegisterNewServiceWithSuite :
 
 theorem c13_shape_ProtocolNameToID :
     Shapes.protocol_ProtocolNameToID =
-   ["uuid.NewMD5", "ProtocolID"] := rfl
+   ["assign:url:=((network.NamespaceURL+\"\")+name)",
+     "return:ProtocolID(uuid.NewMD5(uuid.NameSpaceURL,conv(url)))"] := rfl
 
 theorem c13_shape_protocolStorage_Register :
     Shapes.protocol_protocolStorage_Register =
-   ["ps.Lock", "defer:ps.Unlock", "ProtocolNameToID", "if:exists",
-     "return:ProtocolID(uuid.Nil),xerrors.Errorf(\"\",name)", "return:id,nil"] := rfl
+   ["ps.Lock", "defer:ps.Unlock", "ProtocolNameToID", "assign:id:=ProtocolNameToID(name)",
+     "assign:_,exists:=ps.instantiators[name]", "if:exists",
+     "return:ProtocolID(uuid.Nil),xerrors.Errorf(\"\",name)",
+     "assign:ps.instantiators[name]=protocol", "return:id,nil"] := rfl
 
 theorem c13_shape_protocolStorage_ProtocolIDToName :
     Shapes.protocol_protocolStorage_ProtocolIDToName =
-   ["ps.Lock", "defer:ps.Unlock", "if:id.Equal(ProtocolNameToID(n))", "return:n", "return:\"\""] := rfl
+   ["ps.Lock", "defer:ps.Unlock", "range:n,:=ps.instantiators{",
+     "if:id.Equal(ProtocolNameToID(n))", "return:n", "}", "return:\"\""] := rfl
 
 theorem c13_shape_GlobalProtocolRegister :
     Shapes.protocol_GlobalProtocolRegister =
    ["protocols.Lock", "protocols.Unlock", "protocols.Unlock", "protocols.Register"] := rfl
 
-theorem c13_shape_Context_NewPeerSetID :
-    Shapes.context_Context_NewPeerSetID =
-   ["sha256.New", "h.Write", "h.Write", "h.Sum", "network.NewPeerSetID"] := rfl
-
 theorem c13_shape_router_NewPeerSetID :
     Shapes.network_router_NewPeerSetID =
-   ["copy"] := rfl
-
-theorem c13_shape_struct_ServerIdentity_GetID :
-    Shapes.network_struct_ServerIdentity_GetID =
-   ["ServerIdentityID", "Public.String", "uuid.NewSHA1", "ServerIdentityID"] := rfl
+   ["copy", "return:p"] := rfl
 
 theorem c13_shape_struct_NewServerIdentity :
     Shapes.network_struct_NewServerIdentity =
@@ -1186,17 +1201,44 @@ theorem c13_shape_struct_NewServerIdentity :
 
 theorem c13_shape_TreeNode_Visit :
     Shapes.tree_TreeNode_Visit =
-   ["fn", "c.Visit"] := rfl
+   ["fn", "range:_,c:=t.Children{", "c.Visit", "}"] := rfl
 
 theorem c13_shape_Roster_IsRotation :
     Shapes.tree_Roster_IsRotation =
-   ["if:(target==nil)", "return:false", "if:(n<2)", "return:false", "if:(n!=len(target.List))",
-     "return:false", "if:sid.Equal(ro.List[])", "if:((offset==0)||(offset>=n))", "return:false",
-     "if:!sid.Equal(target.List[])", "return:false", "return:true"] := rfl
+   ["if:(target==nil)", "return:false", "assign:n:=len(ro.List)", "if:(n<2)", "return:false",
+     "if:(n!=len(target.List))", "return:false", "range:_,sid:=target.List{",
+     "if:sid.Equal(ro.List[0])", "break", "assign:offset++", "}",
+     "if:((offset==0)||(offset>=n))", "return:false", "range:i,sid:=ro.List{",
+     "if:!sid.Equal(target.List[((i+offset)%n)])", "return:false", "}", "return:true"] := rfl
 
 theorem c13_shape_Roster_Equal :
     Shapes.tree_Roster_Equal =
    ["ro.GetID", "other.GetID", "roID.Equal"] := rfl
+
+theorem c13_shape_NewRoster_full :
+    Shapes.tree_NewRoster_full =
+   ["if:((len(ids)<1)||(ids[0].Public==nil))", "return:nil", "sha256.New",
+     "assign:h:=sha256.New()", "range:_,id:=ids{", "Public.MarshalTo",
+     "assign:_,err:=id.Public.MarshalTo(h)", "if:(err!=nil)",
+     "range:_,srvid:=id.ServiceIdentities{", "Public.MarshalTo",
+     "assign:_,err=srvid.Public.MarshalTo(h)", "if:(err!=nil)", "}", "}", "h.Sum",
+     "hex.EncodeToString", "uuid.NewSHA1", "RosterID",
+     "assign:r:=&Roster{ID:RosterID(uuid.NewSHA1(uuid.NameSpaceURL,conv(hex.EncodeToString(h.Sum(nil)))))}",
+     "assign:r.List=append(r.List,ids)", "if:(len(ids)!=0)", "range:_,e:=ids{",
+     "if:(e.Public==nil)", "continue", "if:(agg==nil)", "Public.Clone",
+     "assign:agg=e.Public.Clone()", "else", "agg.Add", "assign:agg=agg.Add(agg,e.Public)", "}",
+     "assign:r.Aggregate=agg", "return:r"] := rfl
+
+theorem c13_shape_Context_NewPeerSetID_full :
+    Shapes.context_Context_NewPeerSetID_full =
+   ["sha256.New", "assign:h:=sha256.New()", "h.Write", "h.Write",
+     "return:network.NewPeerSetID(h.Sum(nil))"] := rfl
+
+theorem c13_shape_struct_ServerIdentity_GetID_full :
+    Shapes.network_struct_ServerIdentity_GetID_full =
+   ["if:(si.Public==nil)", "return:ServerIdentityID(uuid.Nil)", "Public.String",
+     "assign:url:=((NamespaceURL+\"\")+si.Public.String())",
+     "return:ServerIdentityID(uuid.NewSHA1(uuid.NameSpaceURL,conv(url)))"] := rfl
 
 
 end C13
